@@ -206,10 +206,12 @@ def _sequential_table(p, led, tier, cascade, runfi):
                         def mk(i=i):
                             @stub
                             def cp(interp, args, kwargs):
-                                k = 0 if phase["first"] else interp.o.choose(3, f"checkpoint {i}: passes / refuses / raises")
+                                k = 0 if phase["first"] else interp.o.choose(4, f"checkpoint {i}: passes / refuses / raises / raises an exception without a message")
                                 log.append(("cp", i, args[0], k))
                                 if k == 2:
                                     raise PyRaise(ExcVal("RuntimeError", ("gate crashed",)))
+                                if k == 3:
+                                    raise PyRaise(ExcVal("AssertionError", ()))          # `assert x > 10`: str(e) == ""
                                 return k == 0
 
                             @stub
